@@ -969,6 +969,21 @@ def family_shapes():
     return out
 
 
+def shape_single_production_backtrack():
+    """S38: an inner abstract symbol with exactly ONE production, and that production is infeasible in some contexts
+    (its dependent VarRange is empty when a == 0): B has nothing left to retry, P fails and A falls back to L."""
+    return {
+        "name": "S38:single-production-backtrack",
+        "abstract": [["A", None, "ABC"], ["B", None, "ABC"]],
+        "prods": [
+            ["L", "A", None, [["v", IR01]]],
+            ["P", "A", None, [["b", ref("B")]]],
+            ["D", "B", None, [["a", IR01], ["n", ["ann", "str", ["Dep", "a", ["VarRangeOf", [[], ["q"]]]]]]]],
+        ],
+        "start": "A",
+    }
+
+
 def family_two_abstract(alphabet_fn, tag="F2"):
     """A -> L | P(x: B, f: T) ; B -> M(v:0..1) | N(a: A) for T over the alphabet (A-referencing)."""
     alpha = alphabet_fn("B", "M")
